@@ -31,6 +31,8 @@ SPEC['explanation'] += ' T3.items: the items iterator returned by enter() is tra
 SPEC['decided'] += ['enter() items traversed once', 'whole path walked']
 SPEC['explanation'] += ' T26: get_path takes no presence decision on a None-defaulted .get().'
 SPEC['decided'] += ['no None-presence decision in get_path']
+SPEC['explanation'] += ' T20.nocache: the functions that build a fresh list / dict / generator per call are not memoised.'
+SPEC['decided'] += ['results are fresh per call (no memoising decorator)']
 MANIFEST = {
     'technique': 'role-typed effect analysis (who is mutated), freshness of returned parents, must-pass-through registry updates on CFG paths',
     'text': ('Decides three necessary structural clauses of C08: remap and its defaults never write to the input, rebuilt containers '
@@ -131,6 +133,8 @@ def immutable_rebuild(ctx, prog):
 
 
 def run(ctx):
+    from rules.common import check_not_memoised as _cnm
+    _cnm(ctx, [ctx.program.func(n) for n in ['iterutils.remap', 'iterutils.research', 'iterutils.default_enter', 'iterutils.default_exit']])
     immutable_rebuild(ctx, ctx.program)
     from rules.common import check_sentinel_default as _csd
     _csd(ctx, ctx.program, ctx.program.func('iterutils.get_path'))
